@@ -41,6 +41,9 @@ func contentPlan(prop string, tier string, root *simcore.RNG, sinks []string, nq
 		if countBatches(j.Batches) > 1200 {
 			j.Batches = genPartition(r, cnt, 1, "mixed")
 		}
+		if r.Intn(3) == 0 {
+			j.Pre = pick(r, []int{1, 83, 84, 134, 5000, 40000, 300000})
+		}
 		sc := &Scenario{Prop: prop, Family: "content", Seed: r.Uint64(), Env: genEnv(r), Groups: [][]Job{{j}},
 			Sites: activeSites(r, sink, false), Sched: genSched(r, []string{"consumer", "renderer"})}
 		pl.scenarios = append(pl.scenarios, sc)
